@@ -284,6 +284,62 @@ fn c07_nontrivial(t: &Trace) -> Option<String> {
     }
 }
 
+// An invitation is good for ONE admission: right after a JOIN that used one up (whether the
+// channel needed it or not, whether the JOIN created the channel or not) the user leaves, the
+// channel is (re-)made invite-only by somebody else, and the user's next JOIN must be refused.
+fn invitation_used_up(eng: &mut crate::engine::Engine, xs: &mut ExtraState, outs: &[StepOut], id: &'static str) -> Result<(), Viol> {
+    let now: BTreeSet<(String, String)> = eng.model.users.values().flat_map(|u| u.invited.iter().map(move |c| (u.nick.clone(), c.clone()))).collect();
+    let prev = std::mem::replace(&mut xs.invited, now.clone());
+    let Some(last) = outs.last() else { return Ok(()) };
+    if !last.sent.starts_with("JOIN ") {
+        return Ok(());
+    }
+    let Some(actor) = last.actor else { return Ok(()) };
+    let Some(nick) = eng.model.nick_of(actor).map(|x| x.to_string()) else { return Ok(()) };
+    let used: Vec<String> = prev.difference(&now).filter(|(n, _)| *n == nick).map(|(_, c)| c.clone()).collect();
+    for ch in used {
+        if !eng.model.chans.get(&ch).map_or(false, |c| c.members.contains_key(&nick)) {
+            continue;
+        }
+        let mut lines: Vec<(String, String)> = vec![(nick.clone(), format!("PART {}", ch))];
+        let others: Vec<String> = eng.model.chans[&ch].members.iter().filter(|(n, r)| **n != nick && r.half_plus()).map(|(n, _)| n.clone()).collect();
+        if let Some(o) = others.first() {
+            lines.push((o.clone(), format!("MODE {} +i", ch)));
+        } else if eng.model.chans[&ch].members.len() == 1 && !eng.model.chans[&ch].predefined {
+            // the channel dies with the PART: somebody else re-creates it
+            let Some(x) = eng.model.users.keys().find(|n| **n != nick).cloned() else { continue };
+            lines.push((x.clone(), format!("JOIN {}", ch)));
+            lines.push((x, format!("MODE {} +i", ch)));
+        } else {
+            continue;
+        }
+        lines.push((nick.clone(), format!("JOIN {}", ch)));
+        for (n, line) in lines {
+            let Some(c) = eng.model.conn_of(&n) else { break };
+            let mut o = eng.line(c, &line);
+            o.ctx = "JOIN".into();
+            *xs.counters.entry("invitation_used_up_probes".into()).or_insert(0) += 1;
+            let owns_all = |d: &Disc, _o: &StepOut| not_panic(d);
+            let pol = Policy { id, owns: &owns_all };
+            if let Verdict::Violation(mut v) = judge(&pol, eng, &o) {
+                v.explanation = format!("after `{}` used up {}'s invitation to {}: {}", last.sent, nick, ch, v.explanation);
+                v.signature = format!("invitation-once:{}", v.signature);
+                return Err(v);
+            }
+        }
+        xs.invited = eng.model.users.values().flat_map(|u| u.invited.iter().map(move |c| (u.nick.clone(), c.clone()))).collect();
+    }
+    Ok(())
+}
+
+fn c07_extra(eng: &mut crate::engine::Engine, xs: &mut ExtraState, outs: &[StepOut]) -> Result<(), Viol> {
+    invitation_used_up(eng, xs, outs, "C07")
+}
+
+fn c09_extra(eng: &mut crate::engine::Engine, xs: &mut ExtraState, outs: &[StepOut]) -> Result<(), Viol> {
+    invitation_used_up(eng, xs, outs, "C09")
+}
+
 pub const C07: MbSpec = MbSpec {
     id: "C07",
     ncfg: 40,
@@ -292,7 +348,7 @@ pub const C07: MbSpec = MbSpec {
     owns: c07_owns,
     probe_level: 1,
     nontrivial: c07_nontrivial,
-    extra: None,
+    extra: Some(c07_extra),
 };
 
 // ------------------------------------------------------------------------------------- C08
@@ -489,7 +545,7 @@ pub const C09: MbSpec = MbSpec {
     owns: c09_owns,
     probe_level: 1,
     nontrivial: c09_nontrivial,
-    extra: None,
+    extra: Some(c09_extra),
 };
 
 // ------------------------------------------------------------------------------------- C10
